@@ -189,6 +189,8 @@ def parse_vspec(path):
             elif d == "attrs":
                 mode = ("attrs", cur_contract)
             elif d == "exit":
+                # `//@ exit all`: the hint is also placed before every explicit `return` (it must then hold at each of them)
+                cur_contract["exit_all"] = rest.strip() == "all"
                 mode = ("exit", cur_contract)
             elif d == "pin_body":
                 cur_contract["pin_body"] = rest
